@@ -514,4 +514,76 @@ theorem isingClusterHam_constW (edges : List (List Nat × Rat)) (g h : Rat) (nva
   intro i o i' o' _ _
   simp only [isingClusterHam, if_neg (Nat.not_lt.mpr h1), if_pos h2, transverseW]
 
+/-! ### the empty move (all draws rejected) -/
+
+/-- structural validity of a string: legs match variables, variables are in range -/
+def ShapeOk (c : Config) : Prop :=
+  ∀ o ∈ opsOf c.slots, o.ins.length = o.vars.length ∧ o.outs.length = o.vars.length ∧
+    ∀ v ∈ o.vars, v < c.state.length
+
+theorem xorB_self : ∀ (x : List Bool), xorB x x = List.replicate x.length false
+  | [] => rfl
+  | a :: x => by
+    have := xorB_self x
+    simp only [xorB] at this
+    simp only [xorB, List.zipWith_cons_cons, List.length_cons, List.replicate_succ, this, List.cons.injEq,
+      and_true]
+    cases a <;> rfl
+
+theorem inputs_false (n : Nat) : ∀ (vars : List Nat) (k : Nat), (∀ v ∈ vars, v < n) →
+    (vars.zip (List.replicate k false)).all
+      (fun vb => (List.replicate n false)[vb.1]? == some vb.2) = true
+  | [], _, _ => by simp
+  | v :: vs, 0, _ => by simp
+  | v :: vs, k + 1, h => by
+    simp only [List.replicate_succ, List.zip_cons_cons, List.all_cons, Bool.and_eq_true, beq_iff_eq]
+    refine ⟨?_, inputs_false n vs k (fun v' hv' => h v' (by simp [hv']))⟩
+    rw [List.getElem?_replicate, if_pos (h v (by simp))]
+
+theorem writeVars_false (n : Nat) : ∀ (vars : List Nat) (k : Nat),
+    writeVars (List.replicate n false) vars (List.replicate k false) = List.replicate n false
+  | [], _ => by simp [writeVars]
+  | v :: vs, 0 => by simp [writeVars]
+  | v :: vs, k + 1 => by
+    have := writeVars_false n vs k
+    simp only [writeVars] at this
+    simp only [writeVars, List.replicate_succ, List.zip_cons_cons, List.foldl_cons,
+      List.set_replicate_self]
+    exact this
+
+theorem propagate_false (n : Nat) : ∀ (s : Slots),
+    (∀ o ∈ opsOf s, o.ins.length = o.vars.length ∧ o.outs.length = o.vars.length ∧ ∀ v ∈ o.vars, v < n) →
+    propagate (List.replicate n false) (maskSlots s s) = some (List.replicate n false)
+  | [], _ => rfl
+  | none :: t, h => by
+    simp only [maskSlots, propagate]
+    exact propagate_false n t (fun o ho => h o (by simpa [opsOf] using ho))
+  | some o :: t, h => by
+    obtain ⟨h1, h2, h3⟩ := h o (by simp [opsOf])
+    have ih := propagate_false n t (fun o' ho' => h o' (by simp [opsOf, ho']))
+    have hi : inputsMatch (List.replicate n false) (maskOp o o) = true := by
+      simp only [inputsMatch, maskOp, xorB_self]
+      exact inputs_false n o.vars _ h3
+    simp only [maskSlots, propagate, applyOp, if_pos hi]
+    simp only [maskOp, xorB_self, writeVars_false]
+    exact ih
+
+theorem pairAll_refl {fr : SkOp → Bool} : ∀ (s : Slots),
+    (∀ o ∈ opsOf s, o.ins.length = o.vars.length ∧ o.outs.length = o.vars.length) →
+    PairAll (OpOk fr) s s
+  | [], _ => trivial
+  | none :: t, h => by
+    simp only [PairAll]; exact pairAll_refl t (fun o ho => h o (by simpa [opsOf] using ho))
+  | some o :: t, h => by
+    simp only [PairAll]
+    obtain ⟨h1, h2⟩ := h o (by simp [opsOf])
+    exact ⟨⟨rfl, rfl, rfl, h1, h2, h1, h2, fun _ => Or.inl ⟨rfl, rfl⟩, fun _ _ => ⟨rfl, rfl⟩⟩,
+      pairAll_refl t (fun o' ho' => h o' (by simp [opsOf, ho']))⟩
+
+theorem ClusterMove.refl (fr : SkOp → Bool) {b : Config} (h : ShapeOk b) : ClusterMove fr b b := by
+  refine ⟨pairAll_refl _ (fun o ho => ⟨(h o ho).1, (h o ho).2.1⟩), rfl, ?_, fun _ _ => rfl⟩
+  unfold Consistent
+  simp only [mask, xorB_self]
+  exact propagate_false _ _ h
+
 end Qmc
